@@ -1,6 +1,7 @@
 package props
 
 import (
+	"go/constant"
 	"go/token"
 	"go/types"
 	"sort"
@@ -346,6 +347,10 @@ func runC06(c *Ctx) {
 		ruleConfiguredFlag(c, p, "C06.configured")
 		ruleInferCache(c, p, "C06.infer-cache")
 		ruleInferIndex(c, p, "C06.infer-index")
+		ruleSumOverflow(c, p, "C06.sum-overflow")
+		ruleZstdCap(c, p, "C06.zstd-cap")
+		ruleDataIndex(c, p, "C06.data-index")
+		ruleWireSlice(c, p, "C06.wire-slice")
 		c.R.Rule("C06.errors", "E6 (as C07.errors): every read error on the decode side reaches only failure exits - a swallowed error turns hostile input into a silently wrong (internally inconsistent) result")
 		nE := runErrDisc(c, p, p.Funcs(), errDiscOpts{Rule: "C06.errors", Class: readerClass(p), Exempt: isDoReceiverPacket})
 		c.R.Floor("C06.errors", cfg.Name, nE, 190)
@@ -1974,6 +1979,11 @@ func inferCacheLeaks(fn *ssa.Function) (key string, leaks []core.Witness) {
 					mut = true
 				}
 			case *ssa.Call:
+				// re-configuring a nested column held in a receiver field (the wrapper forwards Infer) changes
+				// state the key vouches for just as well
+				if x.Call.IsInvoke() && x.Call.Method.Name() == "Infer" && strings.HasPrefix(accessPath(x.Call.Value, 0), "recv.") {
+					mut = true
+				}
 				// a method of the same receiver that writes its fields (parse)
 				if sf := core.StaticFn(x); sf != nil && sf.Blocks != nil && len(x.Call.Args) > 0 && x.Call.Args[0] == ssa.Value(recv) {
 					for _, sb := range sf.Blocks {
@@ -2144,4 +2154,478 @@ func ruleInferIndex(c *Ctx, p *core.Program, rule string) {
 		}
 	}
 	c.R.Count("cross-collection indexed accesses in Infer["+cfg+"]", n)
+}
+
+// ---- C06.sum-overflow: a running offset plus an unbounded wire length cannot wrap around
+func ruleSumOverflow(c *Ctx, p *core.Program, rule string) {
+	c.R.Rule(rule, "in decoders, an addition of a length read from the wire that no check bounds (StrLen, UVarInt, ...) to a non-constant running value (the end offset of the previous string) is guarded against wrap-around: on every path to the addition a comparison of that length with an expression of the running value has been passed (n > MaxInt - end fails), or the sum is compared with the running value before it is used - otherwise the length 2^63-1 after a short first string makes the end offset negative and the slice expression that uses it panics")
+	cfg := p.Cfg.Name
+	bc := newBoundCtx(p)
+	n := 0
+	wire := func(v ssa.Value) ssa.Value {
+		v = stripConv(v)
+		if e, ok := v.(*ssa.Extract); ok {
+			if isWireRead(e.Tuple) {
+				return v
+			}
+			return nil
+		}
+		if isWireRead(v) {
+			return v
+		}
+		return nil
+	}
+	for _, fn := range decodeSide(p) {
+		for _, b := range fn.Blocks {
+			for _, in := range b.Instrs {
+				bo, ok := in.(*ssa.BinOp)
+				if !ok || bo.Op != token.ADD {
+					continue
+				}
+				if bt, ok := bo.Type().Underlying().(*types.Basic); !ok || bt.Info()&types.IsInteger == 0 {
+					continue
+				}
+				var w, other ssa.Value
+				if w = wire(bo.X); w != nil {
+					other = bo.Y
+				} else if w = wire(bo.Y); w != nil {
+					other = bo.X
+				} else {
+					continue
+				}
+				if _, isC := core.ConstInt(other); isC {
+					continue
+				}
+				if bc.bounded(w, bo, 0) {
+					continue
+				}
+				n++
+				key := core.FuncName(fn) + sprintf("/sum#%d", n)
+				// (a) a comparison of the length with something computed from the running value dominates the sum
+				pre := core.CondEdges(fn, false, func(cond ssa.Value) (bool, bool) {
+					cmp, ok := cond.(*ssa.BinOp)
+					if !ok {
+						return false, false
+					}
+					dep := func(v ssa.Value) bool {
+						return core.DependsOn(v, func(x ssa.Value) bool { return x == other || sameLoad(x, other) }, true)
+					}
+					switch {
+					case stripConv(cmp.X) == w && dep(cmp.Y):
+						switch cmp.Op {
+						case token.GTR, token.GEQ:
+							return true, true
+						case token.LSS, token.LEQ:
+							return false, true
+						}
+					case stripConv(cmp.Y) == w && dep(cmp.X):
+						switch cmp.Op {
+						case token.LSS, token.LEQ:
+							return true, true
+						case token.GTR, token.GEQ:
+							return false, true
+						}
+					}
+					return false, false
+				})
+				if len(pre) > 0 && core.OnlyViaEdges(fn, bo, pre) {
+					c.R.Ok(rule, key, cfg, p.Pos(bo.Pos()), "the length is compared with the room left before it is added")
+					continue
+				}
+				// (b) the sum is compared with the running value (wrap-around test) somewhere after
+				post := false
+				for _, r := range *bo.Referrers() {
+					if cmp, ok := r.(*ssa.BinOp); ok && (cmp.Op == token.LSS || cmp.Op == token.GTR || cmp.Op == token.LEQ || cmp.Op == token.GEQ) {
+						o := cmp.Y
+						if cmp.Y == ssa.Value(bo) {
+							o = cmp.X
+						}
+						if o == other || sameLoad(o, other) {
+							post = true
+						}
+					}
+				}
+				if post {
+					c.R.Ok(rule, key, cfg, p.Pos(bo.Pos()), "the sum is compared with the running value (wrap-around test)")
+					continue
+				}
+				c.R.Bad(rule, key, cfg, p.Pos(bo.Pos()), sprintf("%s = %s + %s: the wire length is only known to be non-negative, the sum wraps around for a length near 2^63 and the negative offset reaches a slice expression (panic)", bo.Name(), other.Name(), w.Name()))
+			}
+		}
+	}
+	c.R.Count("running offset + unbounded wire length["+cfg+"]", n)
+}
+
+// sameLoad: a and b are loads of the same field of the same base (p.End read twice).
+func sameLoad(a, b ssa.Value) bool {
+	la, ok1 := a.(*ssa.UnOp)
+	lb, ok2 := b.(*ssa.UnOp)
+	if !ok1 || !ok2 || la.Op != token.MUL || lb.Op != token.MUL {
+		return false
+	}
+	fa, ok1 := la.X.(*ssa.FieldAddr)
+	fb, ok2 := lb.X.(*ssa.FieldAddr)
+	return ok1 && ok2 && fa.X == fb.X && fa.Field == fb.Field
+}
+
+// ---- C06.zstd-cap: the ZSTD decoder's output is capped like the other codecs'
+func ruleZstdCap(c *Ctx, p *core.Program, rule string) {
+	c.R.Rule(rule, "every zstd decoder created in package compress is given WithDecoderMaxMemory(K) with a constant K no larger than the frame cap maxDataSize: DecodeAll sizes its output from the zstd frame's own content-size field, not from the checked data-size field of the ClickHouse frame header, so without the option a 57 KB payload makes the reader allocate 512 MiB (up to the decoder's 64 GiB default) before the size mismatch is noticed")
+	cfg := p.Cfg.Name
+	var limit int64 = -1
+	if pk := p.Pkgs[core.PkgCompress]; pk != nil {
+		if k, ok := pk.Types.Scope().Lookup("maxDataSize").(*types.Const); ok {
+			if v, ok := constant.Int64Val(k.Val()); ok {
+				limit = v
+			}
+		}
+	}
+	n := 0
+	for _, fn := range p.Funcs() {
+		if pkgOf(fn) == nil || pkgOf(fn).Path() != core.PkgCompress {
+			continue
+		}
+		for _, call := range core.Calls(fn) {
+			f := core.CalleeFunc(call)
+			if f == nil || f.Pkg() == nil || !strings.HasSuffix(f.Pkg().Path(), "klauspost/compress/zstd") || f.Name() != "NewReader" {
+				continue
+			}
+			n++
+			key := core.CallKey(fn, call)
+			if limit < 0 {
+				c.R.Unk(rule, key, cfg, p.Pos(call.Pos()), "constant maxDataSize not found in package compress")
+				continue
+			}
+			args := call.Common().Args
+			var capv int64 = -1
+			found := false
+			if len(args) > 0 {
+				for _, o := range variadicElems(args[len(args)-1]) {
+					oc, ok := o.(*ssa.Call)
+					if !ok {
+						continue
+					}
+					of := core.CalleeFunc(oc)
+					if of == nil || of.Name() != "WithDecoderMaxMemory" || len(oc.Call.Args) != 1 {
+						continue
+					}
+					found = true
+					if k, ok := core.ConstInt(stripConv(oc.Call.Args[0])); ok {
+						capv = k
+					} else if kc, ok := oc.Call.Args[0].(*ssa.Const); ok && kc.Value != nil {
+						if u, ok := constant.Uint64Val(kc.Value); ok && u < 1<<62 {
+							capv = int64(u)
+						}
+					}
+				}
+			}
+			switch {
+			case !found:
+				c.R.Bad(rule, key, cfg, p.Pos(call.Pos()), sprintf("zstd decoder without WithDecoderMaxMemory: a hostile frame's content size decides how much DecodeAll allocates (default limit 64 GiB, the library's frame cap is %d)", limit))
+			case capv < 0:
+				c.R.Unk(rule, key, cfg, p.Pos(call.Pos()), "WithDecoderMaxMemory argument is not a constant")
+			case capv > limit:
+				c.R.Bad(rule, key, cfg, p.Pos(call.Pos()), sprintf("zstd decoder memory limit %d exceeds the frame cap maxDataSize=%d", capv, limit))
+			default:
+				c.R.Ok(rule, key, cfg, p.Pos(call.Pos()), sprintf("WithDecoderMaxMemory(%d) <= maxDataSize=%d", capv, limit))
+			}
+		}
+	}
+	c.R.Count("zstd decoders in package compress", n)
+	c.R.Floor(rule, cfg, n, 1)
+}
+
+// ---- C06.data-index: a decoded element used as an index is range-checked on both sides
+type dataIndexSite struct {
+	at         ssa.Instruction
+	base       ssa.Value
+	bt         *types.Basic
+	okUp, okLo bool
+}
+
+// dataIndexSites: slice/array accesses of fn whose index is (a conversion of) an integer element loaded from a
+// slice, with the verdicts "behind an upper-bound test" and "behind a test against zero (or unsigned)".
+func dataIndexSites(fn *ssa.Function) []dataIndexSite {
+	var out []dataIndexSite
+	for _, b := range fn.Blocks {
+		for _, in := range b.Instrs {
+			var idx ssa.Value
+			var base ssa.Value
+			switch x := in.(type) {
+			case *ssa.IndexAddr:
+				idx, base = x.Index, x.X
+			case *ssa.Index:
+				idx, base = x.Index, x.X
+			default:
+				continue
+			}
+			if _, isMap := base.Type().Underlying().(*types.Map); isMap {
+				continue
+			}
+			src := stripConv(idx)
+			ld, ok := src.(*ssa.UnOp)
+			if !ok || ld.Op != token.MUL {
+				continue
+			}
+			if _, ok := ld.X.(*ssa.IndexAddr); !ok {
+				continue
+			}
+			bt, signed, ok := intKindOf(ld.Type())
+			if !ok {
+				continue
+			}
+			same := func(v ssa.Value) bool { return stripConv(v) == src }
+			upper := core.CondEdges(fn, false, func(cond ssa.Value) (bool, bool) {
+				bo, ok := cond.(*ssa.BinOp)
+				if !ok {
+					return false, false
+				}
+				switch {
+				case same(bo.X):
+					if k, isC := core.ConstInt(bo.Y); isC && k <= 0 {
+						return false, false
+					}
+					switch bo.Op {
+					case token.GEQ, token.GTR:
+						return true, true
+					case token.LSS, token.LEQ:
+						return false, true
+					}
+				case same(bo.Y):
+					switch bo.Op {
+					case token.LEQ, token.LSS:
+						return true, true
+					case token.GTR, token.GEQ:
+						return false, true
+					}
+				}
+				return false, false
+			})
+			lower := core.CondEdges(fn, false, func(cond ssa.Value) (bool, bool) {
+				bo, ok := cond.(*ssa.BinOp)
+				if !ok || !same(bo.X) {
+					return false, false
+				}
+				k, isC := core.ConstInt(bo.Y)
+				if !isC || k != 0 {
+					return false, false
+				}
+				switch bo.Op {
+				case token.LSS:
+					return true, true
+				case token.GEQ:
+					return false, true
+				}
+				return false, false
+			})
+			// a table with one entry per value of the element type needs no test
+			full := false
+			at := base.Type().Underlying()
+			if pt, ok := at.(*types.Pointer); ok {
+				at = pt.Elem().Underlying()
+			}
+			if arr, ok := at.(*types.Array); ok && !signed && bt.Kind() == types.Uint8 && arr.Len() >= 256 {
+				full = true
+			}
+			out = append(out, dataIndexSite{
+				at: in, base: base, bt: bt,
+				okUp: full || len(upper) > 0 && core.OnlyViaEdges(fn, in, upper),
+				okLo: !signed || len(lower) > 0 && core.OnlyViaEdges(fn, in, lower),
+			})
+		}
+	}
+	return out
+}
+
+func ruleDataIndex(c *Ctx, p *core.Program, rule string) {
+	c.R.Rule(rule, "in package proto, where a slice or array is indexed by a value that is itself an element loaded from a slice of integers (a decoded raw value: an enum number, a dictionary key) - directly or through conversions - the access is reachable only through an upper-bound test of that value and, when the element type is signed, also through a test against zero: raw enum values are signed, the byte 0xff is -1 and a dense name table indexed with it panics (no such access exists today; a fixture keeps the recogniser alive)")
+	cfg := p.Cfg.Name
+	n := 0
+	for _, fn := range p.Funcs() {
+		if pkgOf(fn) == nil || pkgOf(fn).Path() != core.PkgProto || fn.Blocks == nil {
+			continue
+		}
+		for _, s := range dataIndexSites(fn) {
+			n++
+			key := core.FuncName(fn) + sprintf("/index#%d", n)
+			switch {
+			case s.okUp && s.okLo:
+				c.R.Ok(rule, key, cfg, p.Pos(s.at.Pos()), "decoded element is range-checked before it indexes")
+			case !s.okLo && s.okUp:
+				c.R.Bad(rule, key, cfg, p.Pos(s.at.Pos()), sprintf("a signed decoded element (%s) indexes %s behind an upper-bound test only: a raw value with the sign bit set is negative and the access panics", s.bt.Name(), s.base.Name()))
+			default:
+				c.R.Bad(rule, key, cfg, p.Pos(s.at.Pos()), sprintf("a decoded element (%s) indexes %s without an upper-bound test on every path", s.bt.Name(), s.base.Name()))
+			}
+		}
+	}
+	c.R.Count("decoded elements used as indices["+cfg+"]", n)
+}
+
+// intKindOf: t is an integer type, or a type parameter whose type set has only integer types; signed when any
+// term is signed; the returned basic type is the (first) term's.
+func intKindOf(t types.Type) (*types.Basic, bool, bool) {
+	if tp, ok := t.(*types.TypeParam); ok {
+		iface, ok := tp.Constraint().Underlying().(*types.Interface)
+		if !ok {
+			return nil, false, false
+		}
+		var first *types.Basic
+		signed := false
+		for i := 0; i < iface.NumEmbeddeds(); i++ {
+			u, ok := iface.EmbeddedType(i).(*types.Union)
+			if !ok {
+				return nil, false, false
+			}
+			for j := 0; j < u.Len(); j++ {
+				b, ok := u.Term(j).Type().Underlying().(*types.Basic)
+				if !ok || b.Info()&types.IsInteger == 0 {
+					return nil, false, false
+				}
+				if first == nil {
+					first = b
+				}
+				if b.Info()&types.IsUnsigned == 0 {
+					signed = true
+				}
+			}
+		}
+		return first, signed, first != nil
+	}
+	bt, ok := t.Underlying().(*types.Basic)
+	if !ok || bt.Info()&types.IsInteger == 0 {
+		return nil, false, false
+	}
+	return bt, bt.Info()&types.IsUnsigned == 0, true
+}
+
+// ---- C06.wire-slice: a slice bound taken from a frame header stays inside what was allocated from that same field
+func ruleWireSlice(c *Ctx, p *core.Program, rule string) {
+	c.R.Rule(rule, "in package compress, a slice expression whose bound is computed from a header field read off the wire (binary.LittleEndian.UintN) slices a buffer that the same function sized from that very field (the stores to the buffer's field append make([]byte, n) with n derived from the same read), or is reachable only through a comparison of the bound with len/cap of the buffer: the data size and the raw size are two independent header fields, slicing the raw buffer by the data size panics for a frame whose data size exceeds its payload")
+	cfg := p.Cfg.Name
+	n := 0
+	roots := func(v ssa.Value) map[ssa.Value]bool {
+		out := map[ssa.Value]bool{}
+		core.DependsOn(v, func(x ssa.Value) bool {
+			if isWireRead(x) {
+				out[x] = true
+			}
+			return false
+		}, false)
+		return out
+	}
+	for _, fn := range p.Funcs() {
+		if pkgOf(fn) == nil || pkgOf(fn).Path() != core.PkgCompress || fn.Blocks == nil {
+			continue
+		}
+		// field -> roots of the sizes appended/made into it in this function
+		sized := map[string]map[ssa.Value]bool{}
+		for _, b := range fn.Blocks {
+			for _, in := range b.Instrs {
+				st, ok := in.(*ssa.Store)
+				if !ok {
+					continue
+				}
+				fa, ok := st.Addr.(*ssa.FieldAddr)
+				if !ok {
+					continue
+				}
+				f := fieldNameOnly(fa.X.Type(), fa.Field)
+				core.DependsOn(st.Val, func(x ssa.Value) bool {
+					if mk, ok := x.(*ssa.MakeSlice); ok {
+						for r := range roots(mk.Len) {
+							if sized[f] == nil {
+								sized[f] = map[ssa.Value]bool{}
+							}
+							sized[f][r] = true
+						}
+					}
+					return false
+				}, true)
+			}
+		}
+		for _, b := range fn.Blocks {
+			for _, in := range b.Instrs {
+				sl, ok := in.(*ssa.Slice)
+				if !ok {
+					continue
+				}
+				rs := map[ssa.Value]bool{}
+				for _, bnd := range []ssa.Value{sl.Low, sl.High, sl.Max} {
+					if bnd != nil {
+						for r := range roots(bnd) {
+							rs[r] = true
+						}
+					}
+				}
+				if len(rs) == 0 {
+					continue
+				}
+				n++
+				key := core.FuncName(fn) + sprintf("/slice#%d", n)
+				field := ""
+				if ld, ok := sl.X.(*ssa.UnOp); ok && ld.Op == token.MUL {
+					if fa, ok := ld.X.(*ssa.FieldAddr); ok {
+						field = fieldNameOnly(fa.X.Type(), fa.Field)
+					}
+				}
+				covered := field != ""
+				for r := range rs {
+					if !sized[field][r] {
+						covered = false
+					}
+				}
+				if covered {
+					c.R.Ok(rule, key, cfg, p.Pos(sl.Pos()), "the buffer field "+field+" is sized from the same header field")
+					continue
+				}
+				// a comparison of a bound with len/cap of the sliced value on every path
+				edges := core.CondEdges(fn, false, func(cond ssa.Value) (bool, bool) {
+					bo, ok := cond.(*ssa.BinOp)
+					if !ok {
+						return false, false
+					}
+					isLen := func(v ssa.Value) bool {
+						cl, ok := v.(*ssa.Call)
+						if !ok {
+							return false
+						}
+						bi, ok := cl.Call.Value.(*ssa.Builtin)
+						return ok && (bi.Name() == "len" || bi.Name() == "cap")
+					}
+					dep := func(v ssa.Value) bool {
+						for r := range roots(v) {
+							if rs[r] {
+								return true
+							}
+						}
+						return false
+					}
+					switch {
+					case dep(bo.X) && isLen(bo.Y):
+						switch bo.Op {
+						case token.GTR, token.GEQ:
+							return true, true
+						case token.LSS, token.LEQ:
+							return false, true
+						}
+					case dep(bo.Y) && isLen(bo.X):
+						switch bo.Op {
+						case token.LSS, token.LEQ:
+							return true, true
+						case token.GTR, token.GEQ:
+							return false, true
+						}
+					}
+					return false, false
+				})
+				if len(edges) > 0 && core.OnlyViaEdges(fn, sl, edges) {
+					c.R.Ok(rule, key, cfg, p.Pos(sl.Pos()), "bound compared with the buffer's length first")
+					continue
+				}
+				c.R.Bad(rule, key, cfg, p.Pos(sl.Pos()), sprintf("%s is sliced by a bound read from the frame header, but the buffer was not sized from that header field and no comparison with its length guards the expression: a frame whose announced size exceeds what it carries panics here", orStr(field, sl.X.Name())))
+			}
+		}
+	}
+	c.R.Count("slice bounds from frame header fields["+cfg+"]", n)
+	c.R.Floor(rule, cfg, n, 1)
 }
